@@ -400,7 +400,7 @@ func TestC16(t *testing.T) {
 	defer r.Close(t)
 	r.Rule("positions: every flattened position (actor, object, target, result, origin, instrument, replies, likes, shares, attributedTo) x 16 shapes (IRI, nil pointers alone and in a list, objects of several types with id in pointer and " +
 		"value form, id-less objects, links with and without id, lists with a repeated IRI / one id-less member / an object and an IRI) through FlattenProperties and the typed helpers; lists: all lists of length <= 4 over {IRI a, object a, object b, id-less object, nil, a followers collection with members, an empty collection with id} in " +
-		"every addressee property and in attributedTo; random: random values with decoys at positions that must not be flattened. Oracle: deep copy with exactly the embedded non-collection objects that " +
+		"every addressee property and in attributedTo; shared: one list (with repeated mentions and spare capacity) assigned to every ordered pair of addressee properties; random: random values with decoys at positions that must not be flattened. Oracle: deep copy with exactly the embedded non-collection objects that " +
 		"have an id replaced by IRI(id) (repeated mentions in lists may or may not be dropped), every other property bit-identical, no IRI in the result that was not in the original, flatten twice == once. " +
 		"non-trivial = at least one embedded object with id in a flattened position; distinct by entry point + canonical dump")
 	r.Assume("embedded collections are not placed in flattened positions (the statement speaks of non-collection objects); lists only in the addressee properties and attributedTo")
@@ -568,6 +568,78 @@ func TestC16(t *testing.T) {
 		}
 		r.Cells(total, done)
 		r.Exhaustive("lists", !r.Replaying())
+	}
+
+	// one list assigned to two addressee properties (a caller that built its recipients once): flattening works in place, property
+	// after property, so what it leaves behind in the shared backing array is what the next property starts from
+	if r.WantLayer("shared", true) {
+		mkList := func(k int) ap.ItemCollection {
+			a, b := ap.IRI("https://example.com/actors/a"), ap.IRI("https://example.com/actors/b")
+			var l ap.ItemCollection
+			switch k {
+			case 0:
+				l = ap.ItemCollection{&ap.Actor{ID: a, Type: ap.PersonType}, a, &ap.Actor{ID: b, Type: ap.PersonType}}
+			case 1:
+				l = ap.ItemCollection{a, b, a}
+			case 2:
+				l = ap.ItemCollection{&ap.Object{ID: a, Type: ap.NoteType}, &ap.Object{ID: a, Type: ap.NoteType}, b, &ap.Actor{ID: b, Type: ap.PersonType}}
+			default:
+				l = ap.ItemCollection{a, &ap.Actor{ID: b, Type: ap.PersonType}}
+			}
+			// spare capacity, as a list that was appended to has
+			out := make(ap.ItemCollection, len(l), len(l)+3)
+			copy(out, l)
+			return out
+		}
+		total, done := 0, 0
+		for _, tg := range []target{targets[0], targets[4], targets[7]} {
+			for i, fa := range c16Lists {
+				for j, fb := range c16Lists {
+					if i == j {
+						continue
+					}
+					for k := 0; k < 4; k++ {
+						for _, entry := range tg.entry {
+							total++
+							cell := fmt.Sprintf("shared %s %s[%s] %s=%s list#%d", entry, tg.gt, tg.vt, fa, fb, k)
+							if !r.WantCell(cell) {
+								continue
+							}
+							done++
+							x, xv := mkTop(tg)
+							shared := mkList(k)
+							xv.FieldByName(fa).Set(reflect.ValueOf(shared))
+							xv.FieldByName(fb).Set(reflect.ValueOf(shared))
+							full, dedup := c16FlatList(mkList(k))
+							dump := vocab.Dump(x)
+							var res ap.Item
+							pi := evSafe(func() { res = c16Apply(entry, x) })
+							r.Case(cell, true, "shared "+entry)
+							if done%97 == 0 {
+								r.Sample(cell, map[string]interface{}{"layer": "shared", "value": dump})
+							}
+							if pi != nil {
+								r.Report("shared", cell, "flatten "+entry+" panic@"+pi.Frame+" shared-list", pi.Value, dump)
+								continue
+							}
+							rv, ok := vocab.StructOf(res)
+							if !ok {
+								continue
+							}
+							for _, fn := range []string{fa, fb} {
+								got := rv.FieldByName(fn).Interface().(ap.ItemCollection)
+								if !c16SameList(full, got) && !c16SameList(dedup, got) {
+									r.Report("shared", cell, fmt.Sprintf("flatten %s %s shared-list", entry, fn),
+										fmt.Sprintf("%s.%s shares its list with another addressee property: flattened to %s, reference %s (or without repeated mentions %s)", tg.gt, fn, vocab.Dump(got), vocab.Dump(full), vocab.Dump(dedup)), dump)
+								}
+							}
+						}
+					}
+				}
+			}
+		}
+		r.Cells(total, done)
+		r.Exhaustive("shared", !r.Replaying())
 	}
 
 	r.Rapid(t, "random", r.Pick(2500, 20000), func(t *rapid.T) {
